@@ -46,9 +46,6 @@ impl OperationControl for Capture {
         matcher: &'a ReMatcher<'a>,
         position: usize,
     ) -> Box<dyn Iterator<Item = usize> + 'a> {
-        if (matcher.program.optimization_flags & OPT_HASBACKREFS) != 0 {
-            matcher.set_start_backref(self.group_nr, Some(position));
-        }
         let basis = self.child_op.matches_iter(matcher, position);
 
         Box::new(CaptureGroupIterator::new(
